@@ -184,6 +184,46 @@ pub fn run(ctx: &mut Ctx) {
             }
         }
     }
+    if wants(4) || wants(5) {
+        // enumerated rr / bw workloads with two polled callbacks of known priority -- equal, lower, higher -- where the
+        // interferer is dense (short period) and the analysed callback long, so that the polling-point cap on the
+        // interferer's instances binds; optionally a third callback stretches the busy window
+        for sup in [json!({"k": "dedicated"}), json!({"k": "periodic", "Q": 3, "P": 4})] {
+            for (c_ua, r_ua) in [(8u64, 20u64), (20, 30)] {
+                for (t_o, c_o) in [(5u64, 2u64), (10, 3)] {
+                    // (kind, priority) of the analysed callback and of the dense interferer: known priorities equal / lower /
+                    // higher, and every mix of polled-known, polled-unknown and timer
+                    for (k_ua, p_ua, k_o, p_o) in [("polled", 1i64, "polled", 1i64), ("polled", 1, "polled", 0), ("polled", 0, "polled", 1),
+                                                   ("unknown", 0, "polled", 1), ("polled", 1, "unknown", 0), ("unknown", 0, "unknown", 0),
+                                                   ("polled", 1, "timer", 0), ("timer", 0, "polled", 1)] {
+                        for third in [0usize, 1, 2] {
+                            let mut wl = vec![
+                                json!({"t": k_ua, "p": p_ua, "R": r_ua, "a": {"k": "periodic", "T": 100}, "c": {"k": "scalar", "c": c_ua}}),
+                                json!({"t": k_o, "p": p_o, "R": 30, "a": {"k": "periodic", "T": t_o}, "c": {"k": "scalar", "c": c_o}}),
+                            ];
+                            if third == 1 {
+                                wl.push(json!({"t": "timer", "p": 0, "R": 12, "a": {"k": "periodic", "T": 40}, "c": {"k": "scalar", "c": 4}}));
+                            } else if third == 2 {
+                                wl.push(json!({"t": "unknown", "p": 0, "R": 40, "a": {"k": "sporadic", "T": 50, "J": 3}, "c": {"k": "scalar", "c": 6}}));
+                            }
+                            let recs: Vec<Option<Value>> = wl.iter().map(|c| cb_rec(c, 120 + 40 + 24, wd)).collect();
+                            if recs.iter().any(|r| r.is_none()) {
+                                continue;
+                            }
+                            let wl: Vec<Value> = recs.into_iter().map(|r| r.unwrap()).collect();
+                            for (k, op) in [(4usize, "ros2_rr"), (5, "ros2_bw")] {
+                                if wants(k) {
+                                    for sub in [json!([1]), json!([2]), json!([2, 1])] {
+                                        ctx.call(op, json!({"op": op, "supply": sup, "lim": 120, "workload": wl, "sub": sub, "tags": []}), call_ros2);
+                                    }
+                                }
+                            }
+                        }
+                    }
+                }
+            }
+        }
+    }
     for i in 0..n {
         if let Some(k) = &only {
             if !k.contains(&(i % 6)) {
